@@ -142,6 +142,14 @@ MxUpdateEdge(a, b, w, tryv) ==      \* update_edge / try_update_edge
 MxAddEdge(a, b, w) ==               \* panics if a node is missing or the edge exists
     /\ IF ~InB(a, b) \/ Has(a, b) THEN ret' = <<"panic">> /\ Unch
        ELSE ret' = <<"s", "ok">> /\ AddE(a, b, w) /\ UNCHANGED nodes /\ Same2
+\* extend_with_edges between existing nodes of a hole-free graph, every listed pair absent: a sequence of add_edge
+RECURSIVE MxExtendFold(_, _, _)
+MxExtendFold(es, st, l) ==
+    IF l = <<>> THEN <<es, st>>
+    ELSE LET x == Head(l) IN MxExtendFold(es \cup {[a |-> x[1], b |-> x[2], w |-> x[3], k |-> st]}, st + 1, Tail(l))
+MxExtend(l) == LET r == MxExtendFold(E, stamp, l) IN
+               /\ \A i \in DOMAIN l : InB(l[i][1], l[i][2])
+               /\ E' = r[1] /\ stamp' = r[2] /\ ret' = <<"s", "ok">> /\ UNCHANGED nodes /\ Same2
 MxRemoveEdge(a, b, tryv) ==
     /\ IF InB(a, b) /\ Has(a, b) THEN ret' = <<"i", TheEdge(a, b).w>> /\ E' = E \ {TheEdge(a, b)} /\ UNCHANGED <<nodes, stamp>> /\ Same2
        ELSE ret' = (IF tryv THEN <<"none">> ELSE <<"panic">>) /\ Unch
